@@ -485,6 +485,39 @@ def install(env):
     def _upper(it, s):
         return ops.mk_str(F_upper(s.term))
 
+    F_strip = z3.Function("str_strip", ISEQ, ISEQ)
+    F_title = z3.Function("str_title", ISEQ, ISEQ)
+    F_splitn = z3.Function("split_count", ISEQ, ISEQ, I, I)  # (string, separator, maxsplit) -> number of parts
+    F_splitp = z3.Function("split_part", ISEQ, ISEQ, I, I, ISEQ)  # (string, separator, maxsplit, index) -> part
+
+    @method(SStr, "strip")
+    def _strip(it, s, chars=None):
+        if chars is not None:
+            raise Unsupported("strip(chars)")
+        return ops.mk_str(F_strip(s.term))
+
+    @method(SStr, "title")
+    def _title(it, s):
+        return ops.mk_str(F_title(s.term))
+
+    def _split(it, s, sep=None, maxsplit=-1):
+        """split with a separator and a small maxsplit: the parts are function symbols of (string, separator,
+        maxsplit, index); their number (1 .. maxsplit + 1) is decided by forking on a symbol of the same arguments"""
+        if sep is None or isinstance(maxsplit, SV) or maxsplit < 0 or maxsplit > 4:
+            raise Unsupported("split without separator / without a small maxsplit on a symbolic string")
+        st, sp = s.term, ops.seq_term(sep)
+        n = F_splitn(st, sp, z3.IntVal(maxsplit))
+        it.ctx.assume(z3.And(n >= 1, n <= maxsplit + 1))
+        k = 1
+        while k < maxsplit + 1 and not it.ctx.branch(n == k):
+            k += 1
+        it.ctx.assume(n == k)
+        mk = ops.mk_str if isinstance(s, SStr) else (lambda t: SBytes(t, isinstance(s, SBytes) and s.mutable))
+        return [mk(F_splitp(st, sp, z3.IntVal(maxsplit), z3.IntVal(i))) for i in range(k)]
+
+    method(SStr, "split")(_split)
+    method(SBytes, "split")(_split)
+
     @method(SStr, "startswith")
     def _sw(it, s, p):
         return ops.mk_bool(z3.PrefixOf(ops.seq_term(p), s.term))
